@@ -49,5 +49,5 @@ def gen_around(rng, line, tier):
     return rxgen.gen(rng, "quick")[:300]
 
 
-COMPONENTS = [{"name": "rx", "gen": rxgen.gen, "gen_around": gen_around, "nontrivial": nontrivial,
+COMPONENTS = [{"name": "rx", "keep": 2, "gen": rxgen.gen, "gen_around": gen_around, "nontrivial": nontrivial,
                "classify": classify, "pred": pred}]
